@@ -58,14 +58,23 @@ def _run(tier, seed, replay=None):
     if tier != "quick":
         variants["KF_LiveRunnerFailed=FALSE (the open finding is in the spec)"] = variant(
             wd, "wu_nokf.cfg", [("KF_LiveRunnerFailed = TRUE", "KF_LiveRunnerFailed = FALSE"), ("MaxCrashes = 1", "MaxCrashes = 2")], "Durable")
-    # remote units: the submitting node's side at the grain of the two status rewrites of startRemoteUnit
-    rr = vlib.tlc_must_pass("RemoteUnit", "RemoteUnit.cfg", wd, timeout=600)
-    ru_text = open(os.path.join(vlib.SPECS, "RemoteUnit.cfg")).read().replace("RestartIfIdKnown = FALSE", "RestartIfIdKnown = TRUE")
-    rv = vlib.tlc("RemoteUnit", "ru_idknown.cfg", wd, timeout=600, cfg_text=ru_text)
+    # remote units (RemoteUnit.tla: submit, monitors, cancel/release, link up/down, S crash/restart)
+    ru_base = open(os.path.join(vlib.SPECS, "RemoteUnit_quick.cfg")).read()
+    if tier == "quick":
+        ru_text = ru_base.replace('ClientOps = {"cancel", "release", "frelease"}', 'ClientOps = {"cancel"}')
+        rr = vlib.tlc("RemoteUnit", "ru_c04.cfg", wd, timeout=900, cfg_text=ru_text)
+        if not rr.ok:
+            raise vlib.Inconclusive("TLC did not succeed on RemoteUnit (exit %s violated=%s)" % (rr.exit, rr.violated))
+    else:
+        rr = vlib.tlc_must_pass("RemoteUnit", "RemoteUnit.cfg", wd, timeout=2400, heap="10g")
+        rl = vlib.tlc("RemoteUnit", "RemoteUnit_live.cfg", wd, timeout=2400, deadlock=False)
+        if not rl.ok:
+            raise vlib.Inconclusive("RemoteUnit liveness configuration failed (exit %s, violated=%s)" % (rl.exit, rl.violated))
+        vlib.witnesses("RemoteUnit", "RemoteUnit_quick.cfg", ["W_NoCancelAfterRestart", "W_NoCancelRetry", "W_NoGaveUp"], wd)
+    rv = vlib.tlc("RemoteUnit", "ru_idknown.cfg", wd, timeout=600, cfg_text=ru_base.replace("RestartIfIdKnown = FALSE", "RestartIfIdKnown = TRUE"))
     if not rv.violated:
         raise vlib.Inconclusive("RemoteUnit variant RestartIfIdKnown=TRUE did not violate anything (exit %s)" % rv.exit)
     variants["RemoteUnit RestartIfIdKnown=TRUE (restart resumes a half-finished remote submission)"] = rv.violated
-    vlib.witnesses("RemoteUnit", "RemoteUnit.cfg", ["W_NoStartedAfterCrash", "W_NoIdOnlyRecord"], wd)
     wit = vlib.witnesses("WorkUnit", "WorkUnit_crash.cfg", ["W_NoRecovery", "W_NoSucceeded"], wd)
 
     rec = vlib.build_receptor()
@@ -83,9 +92,9 @@ def _run(tier, seed, replay=None):
             only += "+executor-down"
         args += ["-only", only]
     elif tier == "quick":
-        args += ["-max", "16"]
+        args += ["-max", "16", "-rsched", "cancel-then-restart-submitter"]
     else:
-        args += ["-second"]
+        args += ["-second", "-rsched", "cancel-then-restart-submitter,cancel-while-disconnected"]
     res = vlib.harness_json(vd, args, wd, timeout=6000, name="vd_c04")
     for viol in res["violations"]:
         v.violation(viol["sig"], viol["what"], viol["replay"])
@@ -98,7 +107,8 @@ def _run(tier, seed, replay=None):
     # ---- (B2) the file-step events of every crash run, validated by TLC (crash-aware: a "crash" line per dead process
     # releases its lock and drops its unwritten update, the file system keeps its content)
     tv = {}
-    for key, spec, cfgname, fkey, nkey, post in (("status_file_steps", "StatusFileTrace", "StatusFileTraceCrash.cfg", "norm_file", "norm_events", "TraceAccepted"),
+    for key, spec, cfgname, fkey, nkey, post in (("remote_protocol", "RemoteUnitTrace", "RemoteUnitTrace.cfg", "rw_trace_file", "rw_trace_events", "RTraceAccepted"),
+                                                 ("status_file_steps", "StatusFileTrace", "StatusFileTraceCrash.cfg", "norm_file", "norm_events", "TraceAccepted"),
                                                  ("unit_rewrites", "WorkUnitTrace", "WorkUnitTraceCrash.cfg", "unit_trace_file", "unit_trace_events", "UnitTraceAccepted")):
         if not ex.get(nkey):
             continue
@@ -122,7 +132,7 @@ def _run(tier, seed, replay=None):
         "points_selected": ex.get("points_selected"), "crash_windows": ex.get("classes"), "not_reached": ex.get("not_reached"),
         "inconclusive_experiments": res.get("inconclusive") or [],
         "states": r.distinct + rr.distinct, "transitions": r.generated + rr.generated,
-        "tlc_remote_unit": {"spec": "RemoteUnit.tla", "cfg": "RemoteUnit.cfg", "generated": rr.generated, "distinct": rr.distinct},
+        "tlc_remote_unit": {"spec": "RemoteUnit.tla", "generated": rr.generated, "distinct": rr.distinct},
         "tlc": {"spec": "WorkUnit.tla", "cfg": cfg, "generated": r.generated, "distinct": r.distinct, "depth": r.depth, "wall_s": round(r.wall, 1)},
         "variants_violated": variants, "witnesses": wit, "counters": res["counters"],
         "traces_validated_against_impl": ex.get("status_files", 0) if tv.get("status_file_steps", {}).get("accepted") else 0, "crash_trace_validation": tv,
